@@ -9,6 +9,6 @@ GenInit == Init /\ hist = <<obs>>
 GenNext == Next /\ hist' = Append(hist, obs')
 GenSpec == GenInit /\ [][GenNext]_<<vars, hist>>
 Skel == <<kind, holds, copyh, hascopy, extra, defer, made, cnt, alive>>
-NoGapWalk == \A o \in Objs : cnt[o] <= Max \div 2 - 1 \/ cnt[o] >= Max \div 2 + 2
+NoGapWalk == \A o \in Objs : cnt[o] <= Max \div 2 - 1 \/ cnt[o] >= Max - 1
 Emit == PrintT(<<"BEHAV", ToJson(hist')>>)
 =============================================================================
